@@ -89,22 +89,25 @@ theorem readInt64_write (n : Nat) (h : n < 2 ^ 63) (rest : Bytes) :
   have h2 : ¬ n ≥ 9223372036854775808 := by omega
   simp [readInt64, writeInt64OfNat, h1, readLE_leBytes_of_lt 8 n rest (by omega), h2]
 
-theorem decodeCellUnion_encode (cu : List UInt64) (h : cu.length ≤ maxCells) (rest : Bytes) :
-    decodeCellUnion (encodeCellUnion cu ++ rest) = some (cu, rest) := by
-  have hlen : cu.length < 2 ^ 63 := by simp only [maxCells] at h; omega
-  have h1 : ¬ ((cu.length : Int) > (maxCells : Int)) := by omega
-  have h2 : ¬ ((cu.length : Int) < 0) := by omega
-  have hr := readN_map decodeCellID encodeCellID decodeCellID_encode cu rest
-  simp [decodeCellUnion, encodeCellUnion, List.append_assoc, encodingVersion,
-    readInt64_write _ hlen, h1, h2, hr]
+/-- every union the ENCODER accepts round-trips -/
+theorem decodeCellUnion_encode (cu : List UInt64) (bytes : Bytes) (henc : encodeCellUnion cu = some bytes)
+    (rest : Bytes) : decodeCellUnion (bytes ++ rest) = some (cu, rest) := by
+  unfold encodeCellUnion at henc
+  by_cases h : cu.length > maxCells
+  · simp [h] at henc
+  · simp only [h, if_false, Option.some.injEq] at henc
+    subst henc
+    have hlen : cu.length < 2 ^ 63 := by simp only [maxCells] at h; omega
+    have h1 : ¬ ((cu.length : Int) > (maxCells : Int)) := by omega
+    have h2 : ¬ ((cu.length : Int) < 0) := by omega
+    have hr := readN_map decodeCellID encodeCellID decodeCellID_encode cu rest
+    simp [decodeCellUnion, List.append_assoc, encodingVersion,
+      readInt64_write _ hlen, h1, h2, hr]
 
-/-- and the decoder REJECTS its own encoder's output above the limit (a finding about the Go code) -/
-theorem decodeCellUnion_encode_too_long (cu : List UInt64) (h : maxCells < cu.length)
-    (h2 : cu.length < 2 ^ 63) (rest : Bytes) :
-    decodeCellUnion (encodeCellUnion cu ++ rest) = none := by
-  have h1 : ((cu.length : Int) > (maxCells : Int)) := by omega
-  simp [decodeCellUnion, encodeCellUnion, List.append_assoc, encodingVersion,
-    readInt64_write _ h2, h1]
+/-- the encoder accepts exactly the unions of at most `maxEncodedCells` cells -/
+theorem encodeCellUnion_isSome_iff (cu : List UInt64) : (encodeCellUnion cu).isSome = true ↔ cu.length ≤ maxCells := by
+  unfold encodeCellUnion
+  by_cases h : cu.length > maxCells <;> simp [h] <;> omega
 
 /-! ### Polyline -/
 
